@@ -141,7 +141,7 @@ def check(cx):
                             ("storage::tuple::Tuple::vaccum_with", {VBC, "storage::tuple::Tuple::vaccum_for_snapshot"})):
         cx.guard(r2, callee, p.fn, callee)
         for c in K.callers_of(p, callee, allowed):
-            cx.verdict(c in allowed, r2, "%s<-%s" % (callee.rsplit("::", 1)[-1], c), p.fn(c).where(), "expected caller",
+            cx.verdict(c in allowed, r2, "%s<-%s" % (callee.rsplit("::", 1)[-1], c), p.where_of(c), "expected caller",
                        "%s physically removes tuples/history outside VACUUM" % c)
 
     # ---- C13.3 every relation and both catalog trees ---------------------------------------------------
